@@ -263,6 +263,10 @@ type Exec struct {
 	arrSorts map[string]Sort
 	ifaceParams []string
 	spawned  []string
+	frameLocs  map[string][]Term // modifies clause resolved at entry: array -> locations
+	frameWhole map[string]bool
+	frameReady bool
+	curCfg     *Config
 }
 
 func NewExec(P *Program, fn *ssa.Function, c *FuncContract) *Exec {
